@@ -280,12 +280,15 @@ func mutate(t *rapid.T, text string) (string, mutation) {
 					pos--
 				}
 				bad := rapid.SampledFrom([]rune{'Ω', 'Q', 0x10FFFF, 0xFFFD}).Draw(t, "badRune")
-				ns := `"` + string(inner[:pos]) + string(bad) + string(inner[pos:]) + `"`
+				// the rest of the string may be long: whatever consumes the
+				// string must stop cleanly however much of it is left
+				pad := strings.Repeat("A", rapid.SampledFrom([]int{0, 0, 0, 3, 31, 33, 70, 200, 1500}).Draw(t, "padAfterBad"))
+				ns := `"` + string(inner[:pos]) + string(bad) + pad + string(inner[pos:]) + `"`
 				return splice(i, token{text: ns}), mutation{kind, tt[i].off, tt[i]}
 			}
 		}
 		i := pick(idx)
-		repl := rapid.SampledFrom([]string{`"ΩAB"`, `"AΩB"`, `"Ω"`, `"ABΩ"`, `"ΩΩΩΩ"`}).Draw(t, "badString")
+		repl := rapid.SampledFrom([]string{`"ΩAB"`, `"AΩB"`, `"Ω"`, `"ABΩ"`, `"ΩΩΩΩ"`, `"Ω` + strings.Repeat("AB", 40) + `"`, `"AΩ` + strings.Repeat("B", 700) + `"`}).Draw(t, "badString")
 		return splice(i, token{text: repl}), mutation{kind, tt[i].off, tt[i]}
 	case "stray-char", "nul":
 		off := rapid.IntRange(0, len(text)).Draw(t, "offset")
